@@ -1,5 +1,6 @@
 import ScVerif.C14.Lemmas
 import ScVerif.C14.Acceptor
+import ScVerif.C14.AcceptLemmas
 /-!
 # C14 — trait servers give read-your-writes through the full stack
 
@@ -132,5 +133,133 @@ def exCfg : Cfg Nat Nat Nat where
 example :
     let s := run exCfg ⟨10, []⟩ [.pull "a" none false, .pull "b" (some 4) true, .update "x" 5, .update "x" 0, .update "x" 4]
     s.cur = 19 ∧ (s.streams.map (·.out)) = [[(10, "a"), (15, "a"), (19, "a")], [(3, "b")]] := by decide
+
+/-! ### The acceptor accepts what the model does
+
+The tie runs the model as an acceptor (Acceptor.lean): per stream it keeps a queue of expected
+messages. The theorem below is the per-stream simulation step that makes a rejection meaningful: for
+values and masks given as identifiers, whenever the model's `push` handles an Update response `v` on a
+live stream — whether its equivalence suppresses the message or not — the acceptor's queue functions
+(`qPush`, then `qRecv` for the message sent, `qIdle` when the reader finds nothing more) answer `ok`,
+and the simulation invariant is re-established. Hypotheses (both hold for the servers in `/repo` on
+the harness's inputs, see props/C14.json): the equivalence suppresses only repeated values, and the
+projection is idempotent. -/
+
+/-- **C14_acceptor_accepts_model_stream.** -/
+theorem C14_acceptor_accepts_model_stream (C : Cfg Nat Nat U)
+    (heqv : ∀ l x, C.eqv l x = true → l = some x)
+    (hidem : ∀ m x, C.proj m (C.proj m x) = C.proj m x)
+    (st : Stream Nat Nat) (hlive : st.live = true) (q : List Entry) (prev v : Nat) (est : Bool)
+    -- simulation invariant before the Update: what was last sent projects like the register, and the
+    -- queue holds only suppressed (optional) expectations of the register's current projection
+    (hI : ∀ w, st.last = some w → view C st.mask w = view C st.mask prev)
+    (hq : AllOpt q (view C st.mask prev)) :
+    let x := view C st.mask v
+    let q1 := qPush q x (view C st.mask prev) est
+    -- the model suppresses the message: the reader finds the stream idle, accepted
+    (C.eqv st.last x = true →
+        (push C v st).out = st.out ∧ qIdle q1 = .ok ∧ AllOpt q1 x ∧
+        ∀ w, (push C v st).last = some w → view C st.mask w = view C st.mask v) ∧
+    -- the model sends `x` under the stream's name: the message and the following idle are accepted
+    (C.eqv st.last x = false →
+        (push C v st).out = st.out ++ [(x, st.name)] ∧ (qRecv q1 x true).2 = .ok ∧
+        qIdle (qRecv q1 x true).1 = .ok ∧ AllOpt (qRecv q1 x true).1 x ∧
+        ∀ w, (push C v st).last = some w → view C st.mask w = view C st.mask v) := by
+  intro x q1
+  have hxx : view C st.mask x = view C st.mask v := view_idem C hidem st.mask v
+  constructor
+  · intro he
+    have hl : st.last = some x := heqv _ _ he
+    have hxp : x = view C st.mask prev := by
+      have := hI x hl
+      rw [hxx] at this
+      exact this
+    have hq1 : AllOpt q1 x := by
+      intro e hm
+      rcases List.mem_append.mp hm with hm | hm
+      · have := hq e hm
+        exact ⟨this.1, by rw [this.2, hxp]⟩
+      · simp at hm
+        subst hm
+        exact ⟨by simp [hxp], rfl⟩
+    refine ⟨by simp [push, hlive, x, he], qIdle_allOpt q1 x hq1, hq1, ?_⟩
+    intro w hw
+    have : (push C v st).last = st.last := by simp [push, hlive, x, he]
+    rw [this, hl] at hw
+    cases hw
+    exact hxx
+  · intro he
+    have hout : (push C v st).out = st.out ++ [(x, st.name)] := by simp [push, hlive, x, he]
+    have hlast : (push C v st).last = some x := by simp [push, hlive, x, he]
+    have hfin : ∀ w, (push C v st).last = some w → view C st.mask w = view C st.mask v := by
+      intro w hw
+      rw [hlast] at hw
+      cases hw
+      exact hxx
+    by_cases hxp : x = view C st.mask prev
+    · -- unchanged projection: the new entry is optional like the old ones, the head matches
+      have hq1 : AllOpt q1 x := by
+        intro e hm
+        rcases List.mem_append.mp hm with hm | hm
+        · have := hq e hm
+          exact ⟨this.1, by rw [this.2, hxp]⟩
+        · simp at hm
+          subst hm
+          exact ⟨by simp [hxp], rfl⟩
+      have hskip : skipOptional x q1 = q1 := skipOptional_same x q1 hq1
+      have hne : q1 ≠ [] := by simp [q1, qPush]
+      cases hq1l : q1 with
+      | nil => exact absurd hq1l hne
+      | cons e rest =>
+        have hev : e.val = x := (hq1 e (by rw [hq1l]; exact List.mem_cons_self)).2
+        have hrest : AllOpt rest x := fun e' he' => hq1 e' (by rw [hq1l]; exact List.mem_cons_of_mem _ he')
+        have hr : qRecv (e :: rest) x true = (rest, .ok) := by
+          rw [hq1l] at hskip
+          simp [qRecv, hskip, hev]
+        refine ⟨hout, by rw [hr], by rw [hr]; exact qIdle_allOpt rest x hrest, by rw [hr]; exact hrest, hfin⟩
+    · -- changed projection: the stale optional entries are skipped, the new (possibly MUST) entry matches
+      have hskip : skipOptional x q1 = skipOptional x [{ val := x, must := x ≠ view C st.mask prev && est, seed := false }] :=
+        skipOptional_drop x (view C st.mask prev) (fun h => hxp h.symm) _ q hq
+      have hr : qRecv q1 x true = ([], .ok) := by
+        simp [qRecv, hskip, skipOptional]
+      refine ⟨hout, by rw [hr], by rw [hr]; rfl, by rw [hr]; exact fun e he => by simp at he, hfin⟩
+
+/-! ### A recorded finding: composite (multi-item) updates — openclosepb.UpdatePositions
+
+`UpdatePositions` carries one request out as one `Collection.Update` per state; each of them is a
+register write with its own event. The full-strength statement `C14_update_on_streams` (exactly one
+new message, the response's value) does not hold for such a server: -/
+
+/-- a composite Update: the request is a list of register writes, the response is the final value -/
+def stepMulti (C : Cfg V Mask U) (s : Srv V Mask) (name : String) : List U → Srv V Mask × Resp V
+  | [] => (s, .val s.cur)
+  | u :: us =>
+    match step C s (.update name u) with
+    | (s', .val _) => stepMulti C s' name us
+    | (s', r) => (s', r)
+
+/-- with two or more parts an open stream receives an intermediate value the response never had -/
+theorem C14_composite_update_on_streams_fails :
+    ∃ (s : Srv Nat Nat) (us : List Nat) (v : Nat) (st st' : Stream Nat Nat),
+      (stepMulti exCfg s "x" us).2 = .val v ∧ s.streams[0]? = some st ∧
+      (stepMulti exCfg s "x" us).1.streams[0]? = some st' ∧ st.live = true ∧
+      exCfg.eqv st.last (view exCfg st.mask v) = false ∧
+      st'.out ≠ st.out ++ [(view exCfg st.mask v, st.name)] :=
+  ⟨⟨10, [openStream exCfg 10 "a" none false]⟩, [1, 2], 13, openStream exCfg 10 "a" none false,
+    { name := "a", mask := none, updatesOnly := false, last := some 13, out := [(10, "a"), (11, "a"), (13, "a")], live := true },
+    by decide, rfl, rfl, by decide, by decide, by decide⟩
+
+/-- **partial:** a composite Update with exactly one part IS the register write of that part — same
+state, same response — so every theorem above applies to it (hypothesis: the request has one part;
+the harness's monitor reports multi-part requests under the recorded finding). -/
+theorem C14_composite_update_on_streams_partial (C : Cfg V Mask U) (s : Srv V Mask) (name : String) (u : U) :
+    stepMulti C s name [u] = step C s (.update name u) := by
+  simp only [stepMulti, step]
+  cases C.apply s.cur u with
+  | error c => rfl
+  | ok w => rfl
+
+/-- the hypothesis of the partial theorem is satisfiable by a reachable state -/
+example : (stepMulti exCfg ⟨10, []⟩ "x" [5]).2 = .val 15 := by decide
 
 end ScVerif.C14
